@@ -946,3 +946,71 @@ def _sub_post(st, interp, C, res):
 U_SUBSTITUTION = Unit("_isotope_substitution", FORMULAS + "._isotope_substitution", _sub_inputs, _sub_post,
                       contracts=dict(CALLEE_MASS, **{FORMULAS + ".formula": c_formula_from_dict}),
                       replay={"module": "c12", "task": "replay"})
+
+
+# ==============================================================================  more L3 lemmas
+
+def lemma_sum_additive():
+    """SumOver(S, f+g) == SumOver(S,f) + SumOver(S,g)  (set-insertion induction)"""
+    f = z3.Const("f", z3.ArraySort(T.Atom, z3.RealSort()))
+    g = z3.Const("g", z3.ArraySort(T.Atom, z3.RealSort()))
+    fg = z3.Lambda([_a], z3.Select(f, _a) + z3.Select(g, _a))
+    states = []
+    st = State()
+    e = z3.K(T.Atom, z3.BoolVal(False))
+    st.oblige("base", spec.SumOver(st, e, fg, T.Atom) == spec.SumOver(st, e, f, T.Atom) + spec.SumOver(st, e, g, T.Atom), kind="lemma")
+    states.append(st)
+    st = State()
+    V = z3.Const("V", z3.ArraySort(T.Atom, z3.BoolSort()))
+    k = z3.Const("k", T.Atom)
+    st.assume(z3.Not(z3.Select(V, k)))
+    st.assume(spec.SumOver(st, V, fg, T.Atom) == spec.SumOver(st, V, f, T.Atom) + spec.SumOver(st, V, g, T.Atom))
+    V2 = z3.Store(V, k, z3.BoolVal(True))
+    st.oblige("step", spec.SumOver(st, V2, fg, T.Atom) == spec.SumOver(st, V2, f, T.Atom) + spec.SumOver(st, V2, g, T.Atom), kind="lemma")
+    states.append(st)
+    return states
+
+
+L_SUM_ADDITIVE = Lemma("SumOver.additive", lemma_sum_additive)
+
+
+def lemma_sum_support():
+    """if f vanishes outside S then SumOver(U, f) == SumOver(S, f) for every finite U containing S
+    (induction on the insertions that lead from S to U)"""
+    f = z3.Const("f", z3.ArraySort(T.Atom, z3.RealSort()))
+    S = z3.Const("S", z3.ArraySort(T.Atom, z3.BoolSort()))
+    states = []
+    st = State()
+    st.oblige("base", spec.SumOver(st, S, f, T.Atom) == spec.SumOver(st, S, f, T.Atom), kind="lemma")
+    states.append(st)
+    st = State()
+    U = z3.Const("U", z3.ArraySort(T.Atom, z3.BoolSort()))
+    k = z3.Const("k", T.Atom)
+    st.assume(z3.And(z3.Not(z3.Select(U, k)), z3.Not(z3.Select(S, k)), z3.Select(f, k) == 0))
+    st.assume(spec.SumOver(st, U, f, T.Atom) == spec.SumOver(st, S, f, T.Atom))
+    st.oblige("step", spec.SumOver(st, z3.Store(U, k, z3.BoolVal(True)), f, T.Atom) == spec.SumOver(st, S, f, T.Atom), kind="lemma")
+    states.append(st)
+    return states
+
+
+L_SUM_SUPPORT = Lemma("SumOver.support-extension", lemma_sum_support)
+
+
+def linear_combination_sum(st, parts, weight_fn, name):
+    """The three L3 lemmas (homogeneous, additive, support-extension; each proved by induction) give,
+    for maps A_i = (dom_i, val_i) whose values vanish outside their domain and weights c_i:
+
+        SumOver(U dom_i, lambda a. w(a) * sum_i c_i*val_i(a))  ==  sum_i c_i * SumOver(dom_i, lambda a. w(a)*val_i(a))
+
+    Returns (lhs term, rhs term) and assumes their equality as an instance of those lemmas.
+    parts: list of (c_i, VMap A_i); weight_fn(a) -> z3 real (e.g. the atomic mass)."""
+    doms = [A.dom for _, A in parts]
+    U = z3.Lambda([_a], z3.Or([z3.Select(d, _a) for d in doms]))
+    comb = z3.Lambda([_a], weight_fn(_a) * z3.Sum([to_real(c) * z3.If(z3.Select(A.dom, _a), z3.Select(A.val, _a), z3.RealVal(0))
+                                                     for c, A in parts]))
+    lhs = spec.SumOver(st, U, comb, T.Atom)
+    rhs = z3.Sum([to_real(c) * spec.SumOver(st, A.dom, z3.Lambda([_a], weight_fn(_a) * z3.Select(A.val, _a)), T.Atom)
+                  for c, A in parts])
+    st.assume(lhs == rhs)
+    st.assumptions_used.add("instance of lemmas SumOver.homogeneous/additive/support-extension (%s)" % name)
+    return lhs, rhs
